@@ -113,17 +113,21 @@ NP_OK = ('identity', 'do_action', 'take', 'first', 'last', 'count', 'to_list', '
 def check_node(node, st, fl):
     """Returns the St after `node`; raises Invalid when a precondition of the
     property texts (or a type) is not met."""
-    if st.t == 'npfloat':
+    if st.t in ('npfloat', 'nparr'):
+        if node['op'] == 'flat_map' and st.t == 'nparr':
+            r = _check_node(node, st.copy(t='list'), fl)       # a numpy array is iterated like a list; its elements are numpy scalars
+            r.t = 'npfloat'
+            return r
         if node['op'] not in NP_OK:
-            raise Invalid('operator after a stream of numpy scalars')
+            raise Invalid('operator after a stream of numpy scalars or arrays')
         r = _check_node(node, st.copy(t='any'), fl)
         if node['op'] != 'count':
-            r.t = 'npfloat'
+            r.t = st.t
         return r
     r = _check_node(node, st, fl)
     if node['op'] == 'tee_map' and r.t != 'npfloat':
         outs = [check_pipeline(b, st, fl.sub(in_tee=True)) for b in node['branches']]
-        if any(o.t == 'npfloat' for o in outs):
+        if any(o.t in ('npfloat', 'nparr') for o in outs):
             r.t = 'npfloat'
     return r
 
@@ -189,7 +193,12 @@ def _check_node(node, st, fl):
             # numpy scalars go on to type-agnostic operators only: fed to an operator that keeps a float in a typed array they
             # would break the precondition "accumulators return values of the seed's type" (float + numpy.float64 is numpy.float64)
             ot = 'npfloat'
-        return St(ot, st.empty and not reduce and term is None, st.after_take, aliased=mutating and not reduce)
+        r = St(ot, st.empty and not reduce and term is None, st.after_take, aliased=mutating and not reduce)
+        if reduce and ot == 'list':
+            # the reduced accumulator is handed over at completion (the state is dropped right after): the consumer owns the list,
+            # also the one emitted for a key that received nothing (a fresh copy of the seed, never the seed itself)
+            r.own = True
+        return r
     if op == 'count':
         return St('int', st.empty and not node.get('reduce'), st.after_take)
     if op in MATH:
@@ -336,7 +345,7 @@ def _check_node(node, st, fl):
             inner_empty = bool(node.get('closing')) or node.get('active') == 0 or node.get('inactive') == 0
         else:
             key = node['key']
-            if key not in F.KEYS or not (_match(t, F.KEYS[key][1]) or (op == 'split' and F.KEYS[key][1] == t + '_nan')
+            if key not in F.KEYS or not (_match(t, F.KEYS[key][1]) or (op == 'split' and F.KEYS[key][1] in (t + '_nan', t + '_impure_split'))
                                          or (op == 'group_by' and F.KEYS[key][1] == t + '_impure')):
                 raise Invalid('window key type')
             inner_empty = False
@@ -400,7 +409,9 @@ def statically_applicable(op, t):
     if op == 'filter':
         return bool(names_for(F.PREDS, t))
     if op == 'flat_map':
-        return t == 'list'
+        return t in ('list', 'nparr')
+    if t in ('npfloat', 'nparr'):
+        return op in NP_OK
     if op == 'scan':
         return bool(names_for(F.ACCS, t, 1, True))
     if op in MATH:
@@ -824,13 +835,20 @@ def build_node(node, ctx, mode, path, i):
     if op == 'roll':
         return rs.data.roll(_n(node, 'window'), _n(node, 'stride'), inner)
     if op == 'split':
+        if node['key'] == 'cnt3':
+            calls = ctx.extra.setdefault('keycalls', {}).setdefault('%s/%d' % (path, i), [])
+
+            def every_third(item, _calls=calls):
+                _calls.append(len(_calls) // 3)
+                return _calls[-1]
+            return rs.data.split(every_third, inner)
         return rs.data.split(key_fn(node['key']), inner)
     if op == 'time_split':
         return rs.data.time_split(
             time_mapper=time_mapper(node),
             active_timeout=timeout(node, 'active'),
             inactive_timeout=timeout(node, 'inactive'),
-            closing_mapper=F.closing_of if node.get('closing') else None,
+            closing_mapper=(F.FalsyCloser() if node.get('closing') == 'falsy_callable' else F.closing_of) if node.get('closing') else None,
             include_closing_item=include_arg(node),
             pipeline=inner)
     raise Invalid('unknown operator %r' % (op,))
